@@ -294,16 +294,38 @@ func (c *Capture) MaxSilence() time.Duration {
 // that byte it is a segment that CONTRADICTS the data, and which of two contradicting copies of a byte a monitor
 // keeps is its policy, not something the endpoints' conversation defines.
 func (c *Capture) ProbeBeforeData() bool {
+	// a sender probes only when everything it sent was acknowledged: at the probe, the bytes captured so far must
+	// cover the direction's sequence space without a hole up to and including the byte the probe repeats
 	type key struct{ conv, dir int }
-	end := map[key]uint32{}
-	seen := map[key]bool{}
+	type seg struct{ from, to uint32 }
+	segs := map[key][]seg{}
 	for _, p := range c.Packets {
 		if p.Conv < 0 || p.UDP || p.FragPart > 1 {
 			continue
 		}
 		k := key{p.Conv, p.Dir}
 		if p.Probe {
-			if !seen[k] || int32(p.Seq+1-end[k]) > 0 {
+			l := segs[k]
+			if len(l) == 0 {
+				return true
+			}
+			// contiguous end, starting at the lowest sequence number captured
+			lo := l[0].from
+			for _, x := range l {
+				if int32(x.from-lo) < 0 {
+					lo = x.from
+				}
+			}
+			end := lo
+			for grown := true; grown; {
+				grown = false
+				for _, x := range l {
+					if int32(x.from-end) <= 0 && int32(x.to-end) > 0 {
+						end, grown = x.to, true
+					}
+				}
+			}
+			if int32(p.Seq+1-end) > 0 {
 				return true
 			}
 			continue
@@ -312,8 +334,8 @@ func (c *Capture) ProbeBeforeData() bool {
 		if p.SYN || p.FIN {
 			n++
 		}
-		if e := p.Seq + n; !seen[k] || int32(e-end[k]) > 0 {
-			end[k], seen[k] = e, true
+		if n != 0 {
+			segs[k] = append(segs[k], seg{p.Seq, p.Seq + n})
 		}
 	}
 	return false
@@ -506,7 +528,7 @@ var trafficSets = []*ConvSet{
 		udp("b", "10.0.10.3", 5000, "10.0.10.4", 6000, Msg{C2S, "b0", 2 * time.Minute}),
 		udp("c", "10.0.10.5", 5001, "10.0.10.6", 6001, Msg{C2S, "c0", 2 * time.Minute}),
 		udp("d", "10.0.10.7", 5002, "10.0.10.8", 6002, Msg{C2S, "d0", 90 * time.Second}),
-		udp("e", "10.0.10.4", 6000, "10.0.10.3", 5000, Msg{C2S, "e0", 2 * time.Minute}, sm("E1")),
+		udp("e", "10.0.10.4", 6000, "10.0.10.3", 5000, Msg{C2S, "e0", 2 * time.Minute}),
 	}},
 	// every datagram / data segment travels as two IPv4 fragments (cut behind the first 8 bytes of UDP data,
 	// behind the first 4 bytes of TCP data); deviations then reorder and interleave the fragments
